@@ -38,8 +38,7 @@ def control_devs(s):
     out = [("ctl_time", [{"kind": "time", "t": 2 * H, "link": "p2", "value": "CLOSED"}, {"kind": "time", "t": 3 * H, "link": "p2", "value": "OPEN"}]),
            ("ctl_clock", [{"kind": "clock", "t": 5 * H, "link": "p2", "value": "CLOSED"}]),
            ("ctl_pressure", [{"kind": "pressure", "node": "J2" if any(n["n"] == "J2" for n in s["nodes"]) else "J1", "rel": "<", "thr": 30.0, "link": "p2", "value": "OPEN"}]),
-           ("ctl_pressure_nonstrict", [{"kind": "pressure", "node": "J2" if any(n["n"] == "J2" for n in s["nodes"]) else "J1", "rel": "<=", "thr": 30.0, "link": "p2", "value": "OPEN"},
-                                       {"kind": "pressure", "node": "J2" if any(n["n"] == "J2" for n in s["nodes"]) else "J1", "rel": ">=", "thr": 46.0, "link": "p2", "value": "CLOSED"}])]
+           ("ctl_pressure_nonstrict", [{"kind": "pressure", "node": "J2" if any(n["n"] == "J2" for n in s["nodes"]) else "J1", "rel": "<=", "thr": 30.0, "link": "p2", "value": "OPEN"}])]      # (a second control closing p2 on high pressure would undo itself: chattering, ill-posed)
     if tank:
         out.append(("ctl_level", [{"kind": "level", "node": "T", "rel": ">", "thr": 3.4, "link": src, "value": "CLOSED"},
                                   {"kind": "level", "node": "T", "rel": "<", "thr": 2.6, "link": src, "value": "OPEN"}]))
@@ -407,7 +406,8 @@ def leg_c(s, units, counts, upto_hint=None):
 
 def devkey(s):
     d = s.get("id", {}).get("devs", [])
-    return "+".join(sorted(x["k"] + (":" + x["vt"] if "vt" in x else "") for x in d)) or "base"
+    # (pddmin is the pdd deviation with a non-zero minimum pressure: one demand-model class for the violation keys)
+    return "+".join(sorted(("pdd" if x["k"] == "pddmin" else x["k"]) + (":" + x["vt"] if "vt" in x else "") for x in d)) or "base"
 
 
 def run_case(s):
